@@ -22,6 +22,10 @@ WHY = {
  'close-stale-session-handle': 'Session copies PreparedStmtDB by value; a fix shares one object and changes how a public struct is used',
  'default-noncanonical-number': 'compares the database\'s text with the raw tag text; needs value-level comparison per type',
  'cold-related-first-use': 'schema publication protocol (schema cached before its relations are parsed)',
+ 'owner-first-use-target-in-use': 'same publication protocol: an owner\'s first parse writes into the already-published target schema',
+ 'donothing-unreadable-default': 'RETURNING rows are matched to elements by position; skipping needs a key to match on, which is exactly what is unreadable here',
+ 'returning-single-unreadable-default': 'the single-column RETURNING shortcut assumes that column is the key; choosing the field needs a wider change of the create callback',
+ 'unique-name-collision': 'NamingStrategy.UniqueName is public naming behaviour; changing generated constraint names breaks existing databases',
  'preparestmt-bounded-pool': 'documented trade-off in prepare() (it cannot hold the lock while waiting for a connection)',
 }
 
